@@ -332,30 +332,48 @@ class Derivation(Constraint):
         sustain_count = block.sustain_count(f)
         window = f.levels[0].window
         t = 0
-        delta = window.start_delta * sustain_count
         for n in range(0, trial_count, sustain_count):
             if not f.applies_to_trial(n//sustain_count + 1):
                 continue
             num_levels = len(f.levels)
-            get_trial_size = lambda x: trial_size if x < block.grid_variables() else len(block.decode_variable(x+1)[0].levels)
+            grid_variables = block.grid_variables()
 
             # Only keep clauses where all `BeforeStarts` apply and all indices are in range:
             ands = []
             for l in self.dependent_idxs:
                 vars = cast(List[int], [])
                 ok = True
-                for x in l:
+                for j, x in enumerate(l):
                     if isinstance(x, BeforeStart):
                         if x.ready_at <= n:
                             ok = False
                             break
                     else:
-                        # `t` counts window applications, which are `stride` trials apart, while
-                        # `delta` is an offset in trials that does not scale with the stride
-                        new_x = x + ((t * window.stride + delta) * get_trial_size(x) + 1)
-                        if new_x <= 0:
-                            ok = False
-                            break
+                        # Each argument factor contributes `width` consecutive entries, oldest trial first, and
+                        # `shift_window` moved the entry at window position `i` forward by `i` grid trials. Undo
+                        # that to see whether a grid variable or a variable of a complex factor was meant: the
+                        # shifted index alone cannot tell when the block is shorter than the window is wide.
+                        i = j % window.width
+                        base = cast(int, x) - i * sustain_count * trial_size
+                        if base < grid_variables:
+                            # The trial that this window position looks at, counted from the trial `n` where the
+                            # derived factor applies (and not from the number of applications so far: the first
+                            # application can be later than `width - 1` when another argument starts late)
+                            n_act = n - (window.width - 1 - i) * sustain_count
+                            if n_act < 0:
+                                ok = False
+                                break
+                            new_x = base + n_act * trial_size + 1
+                        else:
+                            # A complex argument factor has one set of variables per trial where *it* applies,
+                            # so find the trial that this window position looks at and count its applications
+                            arg = window.factors[j // window.width]
+                            arg_window = arg.levels[0].window
+                            n_i = n // sustain_count - (window.width - 1 - i)
+                            if n_i < 0 or not arg.applies_to_trial(n_i + 1):
+                                ok = False
+                                break
+                            new_x = base + ((n_i - arg_window.start) // arg_window.stride) * len(arg.levels) + 1
                         vars.append(new_x)
                 if ok:
                     ands.append(And(vars))
